@@ -79,8 +79,8 @@ var IsSentinel = &NoFmtLeaf{Msg: "is-sentinel"}
 // IsLeaf: a leaf with its own Is method.
 type IsLeaf struct{ Msg string }
 
-func (e *IsLeaf) Error() string       { return e.Msg }
-func (e *IsLeaf) Is(r error) bool     { return r == error(IsSentinel) }
+func (e *IsLeaf) Error() string   { return e.Msg }
+func (e *IsLeaf) Is(r error) bool { return r == error(IsSentinel) }
 
 // AsTarget is what AsLeaf's As method can be converted to.
 type AsTarget struct{ From string }
